@@ -406,6 +406,9 @@ func (x *TExec) opConnectionBind(st *TStep) { //nolint:cyclop
 	if x.stop {
 		return
 	}
+	if tc != nil && (c != owner || owner.alloc == nil || owner.alloc.user != Users[ui].Name) {
+		tc.foreignTried = true // somebody other than the owner asked for this connection id
+	}
 	ok := resp != nil && resp.Class == ref.ClassSuccess
 	want := tc != nil && !tc.gone && !tc.boundEver && owner.alloc != nil && owner.alloc.user == Users[ui].Name && now.Before(tc.deadline)
 	switch {
@@ -431,7 +434,11 @@ func (x *TExec) opConnectionBind(st *TStep) { //nolint:cyclop
 	}
 	if !ok {
 		if want {
-			x.fail([]string{"C16", "C03"}, "connectionbind-refused", "ConnectionBind for pending id %#x by the allocation's user within 30 s answered with %s", id, respDesc(resp))
+			props := []string{"C16", "C03"}
+			if tc.foreignTried {
+				props = append(props, "C04") // another 5-tuple's request changed this allocation's connection
+			}
+			x.fail(props, "connectionbind-refused", "ConnectionBind for pending id %#x by the allocation's user within 30 s answered with %s", id, respDesc(resp))
 
 			return
 		}
@@ -592,7 +599,11 @@ func (x *TExec) check(ctx string) { //nolint:cyclop
 		for _, tc := range a.conns {
 			switch {
 			case tc.gone && !tc.srvEnd.IsClosed():
-				x.fail([]string{"C16", "C15"}, "peer-connection-not-closed", "%s: peer connection %#x (%v) should be gone (unbound for 30 s, closed by the other side, or allocation deleted) but the server keeps it open", ctx, tc.id, tc.peer)
+				props := []string{"C16", "C15"}
+				if tc.foreignTried {
+					props = append(props, "C04")
+				}
+				x.fail(props, "peer-connection-not-closed", "%s: peer connection %#x (%v) should be gone (unbound for 30 s, closed by the other side, or allocation deleted) but the server keeps it open", ctx, tc.id, tc.peer)
 
 				return
 			case tc.gone && tc.dataEnd != nil && !tc.dataEnd.Peer().IsClosed():
